@@ -25,8 +25,9 @@ import (
 )
 
 type decTr struct {
-	holes []string
-	seen  map[string]bool
+	holes  []string
+	seen   map[string]bool
+	errSrc string
 	// quiet: only returns, warnings and other calls matter; assignments are no effects and an `if` whose body
 	// neither returns nor calls anything is skipped (used for long functions whose bookkeeping is modelled elsewhere)
 	quiet bool
@@ -65,6 +66,9 @@ func hasReturnOrCall(stmts []ast.Stmt) bool {
 
 func (t *decTr) hole(key string) string {
 	key = strings.Join(strings.Fields(key), " ")
+	if t.errSrc != "" && (key == "err != nil" || key == "err == nil") {
+		key += " [err from " + t.errSrc + "]"
+	}
 	if !t.seen[key] {
 		t.seen[key] = true
 		t.holes = append(t.holes, key)
@@ -156,7 +160,7 @@ func returnLabel(r *ast.ReturnStmt) string {
 	for _, e := range r.Results {
 		if c, ok := e.(*ast.CallExpr); ok {
 			name := exprKey2(c.Fun)
-			if name == "logger.Errorf" && len(c.Args) > 0 {
+			if (name == "logger.Errorf" || name == "fmt.Errorf") && len(c.Args) > 0 {
 				if f, ok := goStringLit(c.Args[0]); ok {
 					parts = append(parts, "Errorf("+f+")")
 					continue
@@ -189,6 +193,12 @@ func endsInReturn(stmts []ast.Stmt) bool {
 
 // dec translates stmts (followed by `rest` when they fall through) with the effects collected so far
 func (t *decTr) dec(stmts []ast.Stmt, effects []string, end string) string {
+	return t.decE(stmts, effects, end, "")
+}
+
+// decE: errSrc names the statement that last assigned `err` on this path (conditions on `err` at different
+// program points are different conditions)
+func (t *decTr) decE(stmts []ast.Stmt, effects []string, end string, errSrc string) string {
 	if len(stmts) == 0 {
 		if end == "" {
 			failf(nil, "a path falls off the end of the function")
@@ -200,9 +210,10 @@ func (t *decTr) dec(stmts []ast.Stmt, effects []string, end string) string {
 		return leanStr(shortLabel(strings.Join(append(append([]string{}, effects...), returnLabel(x)), "; ")))
 	case *ast.IfStmt:
 		if t.quiet && x.Else == nil && !hasReturnOrCall(x.Body.List) {
-			return t.dec(stmts[1:], effects, end)
+			return t.decE(stmts[1:], effects, end, errSrc)
 		}
 		c := ""
+		t.errSrc = errSrc
 		if x.Init != nil {
 			c = t.hole(exprKey2(x.Init) + "; " + exprKey2(x.Cond))
 		} else {
@@ -221,7 +232,7 @@ func (t *decTr) dec(stmts []ast.Stmt, effects []string, end string) string {
 		} else {
 			elseStmts = rest
 		}
-		return "(if " + c + " then " + t.dec(thenStmts, effects, end) + " else " + t.dec(elseStmts, effects, end) + ")"
+		return "(if " + c + " then " + t.decE(thenStmts, effects, end, errSrc) + " else " + t.decE(elseStmts, effects, end, errSrc) + ")"
 	case *ast.RangeStmt:
 		// the loop's exit: the one `if c { … return … }` of its body (other statements of the body are bookkeeping)
 		var exit *ast.IfStmt
@@ -235,23 +246,46 @@ func (t *decTr) dec(stmts []ast.Stmt, effects []string, end string) string {
 			}
 		}
 		if exits == 1 {
-			c := t.hole("some " + exprKey2(x.Value) + " of " + exprKey2(x.X) + ": " + exprKey2(exit.Cond))
-			return "(if " + c + " then " + t.dec(exit.Body.List, effects, end) + " else " + t.dec(stmts[1:], effects, end) + ")"
+			loopErr := ""
+			for _, bs := range x.Body.List {
+				if as, ok := bs.(*ast.AssignStmt); ok && len(as.Rhs) == 1 {
+					for _, l := range as.Lhs {
+						if id, ok := l.(*ast.Ident); ok && id.Name == "err" {
+							if c, ok := as.Rhs[0].(*ast.CallExpr); ok {
+								loopErr = " [err from " + exprKey2(c.Fun) + "()]"
+							}
+						}
+					}
+				}
+			}
+			c := t.hole("some " + exprKey2(x.Value) + " of " + exprKey2(x.X) + ": " + exprKey2(exit.Cond) + loopErr)
+			return "(if " + c + " then " + t.decE(exit.Body.List, effects, end, errSrc) + " else " + t.decE(stmts[1:], effects, end, errSrc) + ")"
 		}
 		if exits > 1 {
 			failf(x, "a loop with several exits")
 		}
 		// a loop without an exit: an effect
 		if t.quiet {
-			return t.dec(stmts[1:], effects, end)
+			return t.decE(stmts[1:], effects, end, errSrc)
 		}
-		return t.dec(stmts[1:], append(append([]string{}, effects...), "for "+exprKey2(x.X)), end)
+		return t.decE(stmts[1:], append(append([]string{}, effects...), "for "+exprKey2(x.X)), end, errSrc)
 	case *ast.ForStmt:
 		if t.quiet {
-			return t.dec(stmts[1:], effects, end)
+			return t.decE(stmts[1:], effects, end, errSrc)
 		}
-		return t.dec(stmts[1:], append(append([]string{}, effects...), "for"), end)
+		return t.decE(stmts[1:], append(append([]string{}, effects...), "for"), end, errSrc)
 	default:
+		if as, ok := stmts[0].(*ast.AssignStmt); ok {
+			for _, l := range as.Lhs {
+				if id, ok := l.(*ast.Ident); ok && id.Name == "err" && len(as.Rhs) == 1 {
+					if c, ok := as.Rhs[0].(*ast.CallExpr); ok {
+						errSrc = exprKey2(c.Fun) + "()"
+					} else {
+						errSrc = exprKey2(as.Rhs[0])
+					}
+				}
+			}
+		}
 		eff := effectOf(stmts[0])
 		if _, isAssign := stmts[0].(*ast.AssignStmt); isAssign && t.quiet {
 			eff = ""
@@ -259,7 +293,7 @@ func (t *decTr) dec(stmts []ast.Stmt, effects []string, end string) string {
 		if eff != "" {
 			effects = append(append([]string{}, effects...), eff)
 		}
-		return t.dec(stmts[1:], effects, end)
+		return t.decE(stmts[1:], effects, end, errSrc)
 	}
 }
 
@@ -286,6 +320,7 @@ var decJobs = []decJob{
 	{"pkg/builder/method.go", "FunctionBuilder", "CreateFunction", "createFunctionChecks", "var assignments", true},
 	{"pkg/parser/comment.go", "Parser", "lookupConverterFunc", "lookupConverterFunc", "", false},
 	{"pkg/parser/comment.go", "Parser", "lookupManipulatorFunc", "lookupManipulatorFunc", "", true},
+	{"pkg/generator/generator.go", "Generator", "Generate", "generate", "", false},
 }
 
 func genDecisions(repo string) string {
